@@ -23,7 +23,8 @@
  *                  Termination: the walk model asserts that the callback stops it within one full wrapped cycle
  *                  (afterwards the callback sees the same arguments again, i.e. the real loop would never end).
  *   h_c17_escape   literal escaping in vbi_search_new (regexp == FALSE), symbolic UCS-2 pattern of <= 5 characters.
- *   h_c17_haystack haystack construction of search_page_fwd on a page whose rows 1 and 2, columns 0..HC-1 and 39..40,
+ *   h_c17_haystack (search.c compiled with LAST_ROW = 3: text rows 1..2 only)
+ *                  haystack construction of search_page_fwd on a page whose rows 1 and 2, columns 0..HC-1 and 39..40,
  *                  are symbolic (size attribute, unicode): characters in row order, one per cell, double width/size
  *                  cells folded into one character, continuation cells skipped, one separator per row, length in
  *                  bounds.
@@ -45,6 +46,10 @@
 
 /* ------------------------------------------------------------------ environment */
 
+#ifndef PLEN
+#define PLEN 5
+#endif
+static size_t c17_last_malloc;       /* size of the last malloc request (CBMC build only) */
 #ifdef VERIF_CBMC
 /* vbi_search_new allocates the 12 KB search object with calloc(1, sizeof(*s)); CBMC's calloc model creates an UNTYPED byte
    array, and every field access of search.c then becomes a byte_extract/byte_update on 12 KB (measured: ~1 s of symex per
@@ -54,12 +59,25 @@ void *calloc(size_t n, size_t size)
   static struct vbi_search c17_zero;
   struct vbi_search *p;
   __CPROVER_assert(n == 1 && size == sizeof(struct vbi_search), "VP:calloc_model_is_for_the_search_object");
-  p = (struct vbi_search *) malloc(sizeof(struct vbi_search));
+  p = (struct vbi_search *) __CPROVER_allocate(sizeof(struct vbi_search), 0);
   *p = c17_zero;
   return p;
 }
+/* malloc is used once, for the escaped pattern (sizeof(ucs2_t) * pat_len * 2 with a symbolic pat_len).  CBMC's bounds
+   checks on a heap object of SYMBOLIC size came back with a spurious "esc_pat + j outside object bounds" (j = 7 with
+   pat_len >= 4; not reproducible natively).  Model: an object of the largest possible request, the requested size is
+   recorded and the harness asserts (a) the request is exactly 2 characters per pattern character and (b) the number of
+   characters written (= the length handed to ure_compile) fits the request. */
+void *malloc(size_t n)
+{
+  c17_last_malloc = n;
+  __CPROVER_assert(n <= sizeof(ucs2_t) * 2 * PLEN, "VP:malloc_model_request_bound");
+  return __CPROVER_allocate(sizeof(ucs2_t) * 2 * PLEN, 0);
+}
 #endif
 
+/* the decoder is only a handle here (search.c reads vbi->ca, vbi->cn, vbi->vt.max_level and hands them to the models).
+   A static zero object; leaving it undefined under CBMC (extern, nondet contents) was tried and is far slower. */
 static vbi_decoder VBI;
 static struct _ure_buffer_t { int dummy; } c17_ub;
 static struct _ure_dfa_t { int dummy; } c17_ud;
@@ -94,7 +112,8 @@ static unsigned c17_n_format, c17_n_exec, c17_n_cb;
 #ifndef HC
 #define HC 3
 #endif
-static vbi_char HCELL[2][HC + 2];         /* haystack obligation: rows 1, 2: columns 0..HC-1, 39, 40 */
+#define HROWS ((LAST_ROW - FIRST_ROW) < 2 ? (LAST_ROW - FIRST_ROW) : 2)
+static vbi_char HCELL[2][HC + 2];         /* haystack obligation: rows 1 (and 2): columns 0..HC-1, 39, 40 */
 static int c17_hay_mode;
 static unsigned long c17_hay_len; static long c17_hay_off; static int c17_hay_flags;
 
@@ -118,7 +137,7 @@ vbi_bool vbi_format_vt_page(vbi_decoder *vbi, vbi_page *pg, cache_page *vtp, vbi
   pg->pgno = vtp->pgno; pg->subno = vtp->subno;
   if (c17_hay_mode) {
     int r, k;
-    for (r = 0; r < 2; r++) {
+    for (r = 0; r < HROWS; r++) {
       for (k = 0; k < HC; k++) pg->text[(1 + r) * 41 + k] = HCELL[r][k];
       pg->text[(1 + r) * 41 + 39] = HCELL[r][HC];
       pg->text[(1 + r) * 41 + 40] = HCELL[r][HC + 1];
@@ -262,8 +281,13 @@ V_HARNESS(h_c17_walk)
   /* oracle state: origins of a forward / backward pass on the cyclic key space.  Forward: the pass begins AT the start
      page.  Backward: it begins just below it and ends with it (VBI_ANY_SUBNO: all subpages of the start page first). */
   O_f = c17_key(pgno0, subno0 == VBI_ANY_SUBNO ? 0 : subno0);
-  Uk = (subno0 == VBI_ANY_SUBNO) ? c17_key(pgno0, 0) + 0x10000u : c17_key(pgno0, subno0);
-  O_r = (Uk + MKEY - 1) % MKEY;
+  /* the largest VALID page key below the start position (subpage numbers are S4 S3 S2 S1 with S2 <= 7, S4 <= 3, at most
+     0x3F7E): the exact key matters because a page sitting exactly on the origin is the first/last one of a pass */
+  if (subno0 == VBI_ANY_SUBNO) O_r = c17_key(pgno0, 0x3F7E);
+  else if (subno0 == 0) O_r = c17_key(pgno0 == 0x100 ? 0x8FF : pgno0 - 1, 0x3F7E);
+  else if ((subno0 & 0x7F) == 0) O_r = c17_key(pgno0, (subno0 - 0x100) | 0x7E);
+  else O_r = c17_key(pgno0, subno0 - 1);
+  (void) Uk;
 
   for (c = 0; c < NCALLS; c++) {
     int d = in_bool() ? 1 : -1, st, n = 0, best = -1, stop_page = 0;
@@ -318,9 +342,6 @@ V_HARNESS(h_c17_walk)
 
 /* ------------------------------------------------------------------ literal escaping */
 
-#ifndef PLEN
-#define PLEN 5
-#endif
 static int c17_is_meta(unsigned c)
 {
   /* the characters vbi_search_new documents/lists as special to the regex syntax */
@@ -354,6 +375,10 @@ V_HARNESS(h_c17_escape)
   } else {
     V_ASSERT(S != NULL && c17_n_compile == 1 && c17_casefold == casefold, "compiled_once");
     V_ASSERT(c17_pat_len >= len && c17_pat_len <= 2 * len, "escaped_length_bounds");
+#ifdef VERIF_CBMC
+    V_ASSERT(c17_last_malloc == sizeof(ucs2_t) * 2 * len, "escape_buffer_request_is_two_per_character");
+    V_ASSERT(c17_pat_len * sizeof(ucs2_t) <= c17_last_malloc, "escaped_pattern_fits_the_buffer");
+#endif
     /* de-escaping the compiled pattern gives back the input, every metacharacter carries a backslash, and a backslash
        never lands in front of a character whose meaning it would change */
     j = 0;
@@ -398,13 +423,22 @@ V_HARNESS(h_c17_haystack)
 {
   static ucs2_t pattern[2] = { 'a', 0 };
   static ucs2_t EXPH[2 * ROWLEN + 2];
-  unsigned n = 0, rowlen[2], i;
+  unsigned n = 0, rowlen[2] = { 0, 0 }, i;
   int r, k, st;
   vbi_page *pg;
   V_INIT();
-  for (r = 0; r < 2; r++)
+  for (r = 0; r < HROWS; r++)
     for (k = 0; k < HC + 2; k++) in_bytes(&HCELL[r][k], sizeof(vbi_char));
-  for (r = 0; r < 2; r++) {
+#ifdef SIZES
+  /* size attributes fixed by the grid (SIZES = 4 decimal digits: cells at columns 0, 1, 39, 40 of both rows; HC must be 2):
+     with symbolic sizes the write position in the haystack is symbolic and every store goes through a symbolic offset
+     into the 12 KB search object (measured: 10 GB after 100 s for ONE row with 4 symbolic cells) */
+  for (r = 0; r < HROWS; r++) {
+    HCELL[r][0].size = (SIZES / 1000) % 10; HCELL[r][1].size = (SIZES / 100) % 10;
+    HCELL[r][2].size = (SIZES / 10) % 10; HCELL[r][3].size = SIZES % 10;
+  }
+#endif
+  for (r = 0; r < HROWS; r++) {
     for (k = 0; k < HC; k++) V_ASSUME(c17_cell_ok(&HCELL[r][k], k + 1 < HC ? &HCELL[r][k + 1] : NULL));
     V_ASSUME(c17_cell_ok(&HCELL[r][HC], &HCELL[r][HC + 1]));
     V_ASSUME(HCELL[r][HC + 1].size != VBI_DOUBLE_WIDTH && HCELL[r][HC + 1].size != VBI_DOUBLE_SIZE && HCELL[r][HC + 1].size <= VBI_DOUBLE_SIZE2);
@@ -421,7 +455,7 @@ V_HARNESS(h_c17_haystack)
 
   /* oracle: the displayed characters of rows 1..23, columns 0..39, left to right: one character per NORMAL /
      DOUBLE_HEIGHT / DOUBLE_WIDTH / DOUBLE_SIZE cell, nothing for continuation cells, one separator per row */
-  for (r = 0; r < 2; r++) {
+  for (r = 0; r < HROWS; r++) {
     unsigned start = n;
     for (k = 0; k < 40; k++) {
       const vbi_char *c = (k < HC) ? &HCELL[r][k] : (k == 39) ? &HCELL[r][HC] : NULL;
@@ -431,12 +465,11 @@ V_HARNESS(h_c17_haystack)
     rowlen[r] = n - start;
     EXPH[n++] = SEPARATOR;
   }
-  V_ASSERT(LAST_ROW == 24, "real_page_geometry");
-  V_ASSERT(c17_hay_len == n + 21 * ROWLEN, "haystack_length");
+  V_ASSERT(c17_hay_len == n + (LAST_ROW - FIRST_ROW - HROWS) * ROWLEN, "haystack_length");
   V_ASSERT(c17_hay_len <= sizeof S->haystack / sizeof S->haystack[0], "haystack_fits_buffer");
   for (i = 0; i < 2 * ROWLEN; i++)
     if (i < n) V_ASSERT(S->haystack[i] == EXPH[i], "haystack_rows_1_2");
-  V_ASSERT(S->haystack[n + 40] == SEPARATOR && S->haystack[n] == 0, "row_3_follows");
+  if (LAST_ROW > 3) V_ASSERT(S->haystack[n + 40] == SEPARATOR && S->haystack[n] == 0, "row_3_follows");
   V_ASSERT(S->haystack[c17_hay_len - 1] == SEPARATOR, "last_row_separator");
   if (rowlen[0] < 40) V_REACH("folded");
   if (rowlen[0] == 40 - HC) V_REACH("all_symbolic_cells_skipped_or_folded");
